@@ -371,8 +371,8 @@ fault of any kind, no fuel exhaustion — and its final state carries the verdic
 of every group of `Spec.attempt`.
 
 Full statement aimed at (`compile_correct`, NOT proved): the same for every tree `syntax.Parse` can produce, i.e.
-`InFrag 8` extended by balancing groups, both directions.  Proved: the tiers 1–4 below (left to right; general loops
-included; no `UpdateBumpalong`, `Ref`, conditionals, lookbehind). -/
+`InFrag 8` extended by balancing groups, both directions.  Proved: the tiers 1–5 below (left to right; general loops
+and `UpdateBumpalong` included; no `Ref`, conditionals, lookbehind). -/
 section compiler
 open RegexVerif.Compile RegexVerif.Writer RegexVerif.Generated.Opcodes
 
@@ -499,6 +499,20 @@ theorem compile_correct_T4a (ti : TreeInfo) (t : GoNode) (TPx : TP) (env : VM.En
       (∀ fuel, n ≤ fuel → (VM.run (emit ti t) env fuel s0).1 = .done s) ∧ Agrees ti se pat i s :=
   compile_correct_upto 4 (by decide) ti t TPx env se pat i hfrag hwf hpat hrel hi (by omega) (fun _ => hlen)
 
+/-- **`compile_correct_T4b`** — tier 5 = tier 4 + `UpdateBumpalong` (the node the parser puts behind a leading `.*`-like
+    loop; its instruction raises the BOTTOM slot of the backtracking stack — the text position the `Lazybranch` at
+    code position 0 saved, from which a failed attempt tells the scan where to resume — to the current text position).
+    The simulation is carried out "up to the bottom slot" (`Compile.Delivers` quantifies it existentially at every
+    state and universally at every later failure): no instruction of a fragment other than `UpdateBumpalong` reads or
+    writes it, and the conclusion shows that it influences neither the verdict, nor the end position, nor any capture
+    of the attempt. -/
+theorem compile_correct_T4b (ti : TreeInfo) (t : GoNode) (TPx : TP) (env : VM.Env) (se : Spec.Env) (pat : Pat) (i : Nat)
+    (hfrag : InFrag 5 TPx ti t = true) (hwf : treeWf ti t = true) (hpat : toPatRoot TPx false t = some pat)
+    (hrel : EnvRel TPx (codeFromTree (mainCfg ti) t).2.sets env se) (hi : i ≤ se.n) (hlen : se.n < 2147483647) :
+    ∃ s0 s n, VM.init (emit ti t) (i : Int) = .ok s0 ∧
+      (∀ fuel, n ≤ fuel → (VM.run (emit ti t) env fuel s0).1 = .done s) ∧ Agrees ti se pat i s :=
+  compile_correct_upto 5 (by decide) ti t TPx env se pat i hfrag hwf hpat hrel hi (by omega) (fun _ => hlen)
+
 /-! ### non-vacuity (compiler correctness): four concrete trees inside the fragments, the hypotheses of the theorems
 met, and both sides of the conclusion evaluated -/
 
@@ -584,9 +598,19 @@ example : ∃ s0 s n, VM.init (emit (ccInfo 2) ccT7) (0 : Nat) = .ok s0 ∧
       simpa using this⟩
   | none => absurd h (by decide)
 
-/-- trees outside the proved tiers: `UpdateBumpalong` is tier 5, a backreference tier 6 -/
-example : InFrag 4 ccTP (ccInfo 2) (.capture 0 (-1) (.concat [.capture 1 (-1) (.char opOne false false 97), .ref false false 1])) = false ∧
-    InFrag 4 ccTP (ccInfo 1) (.capture 0 (-1) (.concat [.bare opUpdateBumpalong, .char opOne false false 97])) = false := by decide
+/-- `.*ab` as the parser leaves it: `Notoneloop(\n)*; UpdateBumpalong; Multi "ab"` (tier 5, not tier 4) on "xabab":
+    the greedy loop runs to the end and gives back until the LAST "ab" -/
+example : InFrag 4 ccTP (ccInfo 1) ccT8 = false ∧ InFrag 5 ccTP (ccInfo 1) ccT8 = true ∧ treeWf (ccInfo 1) ccT8 = true := by
+  decide
+example : ccRun (ccInfo 1) ccT8 (ccEnv [] (ccSe [120, 97, 98, 97, 98])) 0 200 = some (true, 5, [[0, 5]]) := by decide
+example : (toPatRoot ccTP false ccT8).map (fun p => Spec.attempt (ccSe [120, 97, 98, 97, 98]) p false 0) =
+    some (some { pos := 5, caps := [(0, 0, 5)] }) := by decide
+/-- a failing attempt of the same program ends at `Stop` unmatched (its text position is the raised bottom slot) -/
+example : ccRun (ccInfo 1) ccT8 (ccEnv [] (ccSe [120, 97, 97])) 0 200 = some (false, 3, [[]]) := by decide
+
+/-- trees outside the proved tiers: a backreference is tier 6 -/
+example : InFrag 5 ccTP (ccInfo 2) (.capture 0 (-1) (.concat [.capture 1 (-1) (.char opOne false false 97), .ref false false 1])) = false := by
+  decide
 
 end compiler
 
